@@ -1,79 +1,147 @@
 mod c19;
+mod common;
+mod driver;
 mod prng;
 mod sched;
 mod seam;
 mod tape;
 
-use prng::{mix, Rng};
-use tape::Tape;
+use common::Prop;
+use driver::CheckOpts;
 
 #[global_allocator]
 static GLOBAL: seam::CountingAlloc = seam::CountingAlloc;
 
-fn sandbox_init() -> String {
-    let base = std::env::var("DSIM_SANDBOX").unwrap_or_else(|_| {
-        if std::path::Path::new("/dev/shm").is_dir() {
-            "/dev/shm".to_string()
-        } else {
-            std::env::temp_dir().to_string_lossy().into_owned()
+fn usage() -> ! {
+    eprintln!(
+        "usage:\n  dsim check <C05|C18|C19> [--tier quick|thorough] [--seed N] [--workers N] [--runs N] [--max-seconds N] [--no-evidence]\n  dsim replay <file>\n  dsim determinism <id> [--runs N] [--tier ..] [--seed N]\n  (internal) dsim worker ..., dsim determinism-worker ..."
+    );
+    std::process::exit(2)
+}
+
+fn flag(args: &[String], name: &str) -> Option<String> {
+    args.iter()
+        .position(|a| a == name)
+        .and_then(|i| args.get(i + 1).cloned())
+}
+
+fn env_seed() -> u64 {
+    std::env::var("VERIF_SEED")
+        .ok()
+        .and_then(|s| s.trim().parse::<u64>().ok())
+        .unwrap_or(driver::DEFAULT_SEED)
+}
+
+fn dispatch<P: Prop>(cmd: &str, args: &[String]) -> i32 {
+    match cmd {
+        "check" => {
+            let tier = flag(args, "--tier")
+                .or_else(|| std::env::var("VERIF_TIER").ok())
+                .unwrap_or_else(|| "quick".to_string());
+            let o = CheckOpts {
+                verif_dir: flag(args, "--verif-dir").unwrap_or_else(|| {
+                    std::env::current_dir()
+                        .unwrap()
+                        .to_string_lossy()
+                        .into_owned()
+                }),
+                seed: flag(args, "--seed")
+                    .and_then(|s| s.parse().ok())
+                    .unwrap_or_else(env_seed),
+                thorough: tier == "thorough",
+                workers: flag(args, "--workers")
+                    .and_then(|s| s.parse().ok())
+                    .unwrap_or_else(|| {
+                        std::thread::available_parallelism()
+                            .map(|n| n.get() as u64)
+                            .unwrap_or(4)
+                            .min(16)
+                    }),
+                runs: flag(args, "--runs").and_then(|s| s.parse().ok()),
+                max_seconds: flag(args, "--max-seconds")
+                    .and_then(|s| s.parse().ok())
+                    .unwrap_or(if tier == "thorough" { 3000 } else { 420 }),
+                write_evidence: !args.iter().any(|a| a == "--no-evidence"),
+            };
+            driver::check::<P>(&o)
         }
-    });
-    let dir = format!("{}/dsim-{}", base, std::process::id());
-    let _ = std::fs::remove_dir_all(&dir);
-    std::fs::create_dir_all(&dir).expect("create sandbox");
-    std::env::set_current_dir(&dir).expect("chdir sandbox");
-    let canon = std::fs::canonicalize(&dir).unwrap();
-    let s = canon.to_string_lossy().into_owned();
-    seam::set_root(&s);
-    s
+        "worker" => {
+            // worker <id> <verif_dir> <seed> <tier> <start> <stride> <total> <max_s>
+            let g = |i: usize| args.get(i).cloned().unwrap_or_default();
+            driver::worker::<P>(
+                &g(2),
+                g(3).parse().unwrap_or(1),
+                g(4) == "thorough",
+                g(5).parse().unwrap_or(0),
+                g(6).parse().unwrap_or(1),
+                g(7).parse().unwrap_or(0),
+                g(8).parse().unwrap_or(60),
+            )
+        }
+        "replay" => {
+            // replay <id> <verif_dir> <file> [--expect]
+            let g = |i: usize| args.get(i).cloned().unwrap_or_default();
+            driver::replay::<P>(&g(2), &g(3), args.iter().any(|a| a == "--expect"))
+        }
+        "determinism" => {
+            let tier = flag(args, "--tier").unwrap_or_else(|| "quick".to_string());
+            driver::determinism::<P>(
+                flag(args, "--seed")
+                    .and_then(|s| s.parse().ok())
+                    .unwrap_or_else(env_seed),
+                tier == "thorough",
+                flag(args, "--runs").and_then(|s| s.parse().ok()).unwrap_or(500),
+            )
+        }
+        "determinism-worker" => {
+            let g = |i: usize| args.get(i).cloned().unwrap_or_default();
+            driver::determinism_worker::<P>(
+                g(2).parse().unwrap_or(1),
+                g(3) == "thorough",
+                g(4).parse().unwrap_or(0),
+                g(5).parse().unwrap_or(0),
+            )
+        }
+        _ => usage(),
+    }
 }
 
 fn main() {
-    let args: Vec<String> = std::env::args().collect();
+    let mut args: Vec<String> = std::env::args().skip(1).collect();
+    if args.is_empty() {
+        usage();
+    }
+    // code under test may panic; the default hook takes locks and prints
     std::panic::set_hook(Box::new(|_| {}));
-    let root = sandbox_init();
-    let seed: u64 = args.get(2).and_then(|s| s.parse().ok()).unwrap_or(1);
-    let runs: u64 = args.get(3).and_then(|s| s.parse().ok()).unwrap_or(1000);
-    let t0 = std::time::Instant::now();
-    let mut viol = 0;
-    let mut nontriv = 0;
-    let mut hashes = std::collections::HashSet::new();
-    let mut probes = c19::Probes::default();
-    let mut steps = 0u64;
-    for i in 0..runs {
-        let rs = mix(seed, i);
-        let mut rng = Rng::new(mix(rs, 1));
-        let wl = c19::generate(&mut rng, false);
-        let mut tape = Tape::generate(mix(rs, 2));
-        match c19::run_one(&wl, &mut tape, mix(rs, 3)) {
-            Ok(rep) => {
-                steps += rep.steps as u64;
-                probes.merge(&rep.probes);
-                if rep.nontrivial {
-                    nontriv += 1;
-                    hashes.insert(rep.log_hash);
-                }
-                if let Some(v) = rep.violation {
-                    viol += 1;
-                    if viol <= 5 {
-                        println!("run {} VIOL {:?}\n  wl={}", i, v, serde_json::to_string(&wl).unwrap());
-                        for e in rep.events.iter() {
-                            println!("   {:?}", e);
-                        }
-                    }
-                }
-            }
-            Err(e) => {
-                println!("run {} harness error {}", i, e);
-                std::process::exit(2);
-            }
+    let cmd = args[0].clone();
+    // `dsim replay <file>`: take the property from the file
+    if cmd == "replay" && args.len() >= 2 && std::path::Path::new(&args[1]).is_file() {
+        let file = std::fs::canonicalize(&args[1])
+            .unwrap()
+            .to_string_lossy()
+            .into_owned();
+        let v: serde_json::Value =
+            serde_json::from_str(&std::fs::read_to_string(&file).unwrap_or_default())
+                .unwrap_or(serde_json::Value::Null);
+        let id = v
+            .get("property")
+            .and_then(|p| p.as_str())
+            .unwrap_or("")
+            .to_string();
+        let vd = std::env::current_dir()
+            .unwrap()
+            .to_string_lossy()
+            .into_owned();
+        let expect = args.iter().any(|a| a == "--expect");
+        args = vec!["replay".to_string(), id, vd, file];
+        if expect {
+            args.push("--expect".to_string());
         }
     }
-    println!(
-        "runs={} steps={} viol={} nontrivial={} distinct={} wall={:?}",
-        runs, steps, viol, nontriv, hashes.len(), t0.elapsed()
-    );
-    println!("{}", serde_json::to_string_pretty(&probes).unwrap());
-    let _ = std::env::set_current_dir("/");
-    let _ = std::fs::remove_dir_all(&root);
+    let id = args.get(1).cloned().unwrap_or_default();
+    let code = match id.as_str() {
+        "C19" => dispatch::<c19::C19>(&cmd, &args),
+        _ => usage(),
+    };
+    std::process::exit(code);
 }
